@@ -75,8 +75,9 @@ class HStory:
         n = len(ids)
         L = self.max_list
         new = [p for p in self.pool if p not in ids]
+        extra_unres = new[-1:] if getattr(self, 'absent_refs', False) else []     # a pool ID that is not in the running order: unresolvable too
         refs_t = ids + [UNKNOWN, BLANK, ABSENT]
-        refs_s = ids + [UNKNOWN, BLANK]
+        refs_s = ids + [UNKNOWN, BLANK] + extra_unres
         K = self.kinds
         if 'StoryAppend' in K:
             for pl in _lists(new[:3], 1, L):
@@ -296,8 +297,9 @@ class HItem:
         L = self.max_list
         new = [p for p in self.pool if p not in ids]
         K = self.kinds
+        extra_unres = new[-1:] if getattr(self, 'absent_refs', False) else []
         refs_t = ids + [UNKNOWN, BLANK]
-        refs_s = ids + [UNKNOWN, BLANK]
+        refs_s = ids + [UNKNOWN, BLANK] + extra_unres
         for story in (self.S1, UNKNOWN, BLANK, ABSENT):
             full = story == self.S1
             # with an unresolvable story reference a reduced argument menu suffices
@@ -785,8 +787,8 @@ def timing_states(max_n=3, kinds=TIMING_KINDS, explicit=('', 's', 'e', 'se'), ed
                 stories = []
                 for sid, (k, x) in zip(ids, combo):
                     stories.append(gen.story_xml(sid, 0, body=(('p', 'plain'),), timing=k,
-                                                 started=T_STARTED[sid] if 's' in x else None,
-                                                 ended=T_ENDED[sid] if 'e' in x else None))
+                                                 started=T_STARTED.get(sid, '2020-03-01T10:40:00') if 's' in x else None,
+                                                 ended=T_ENDED.get(sid, '2020-03-01T10:55:05') if 'e' in x else None))
                 for ed in edstarts:
                     meta = [m for m in gen.meta_elems(2, edstart=ed)]
                     yield gen.ro_text(stories, 'before', meta)
